@@ -8,11 +8,20 @@ FIXED = {"w.html": b"W-html\n", "w.tex": b"W-tex\n", "w.txt": b"W-txt\n", "w.fod
          "m.txt": b"Title: M\nAuthor: me\n\nM-body {{t.txt}}\n", "empty.txt": b"", "onlymeta.txt": b"Title: M\nAuthor: me\n", "tb.txt": b"transclude base: base\n\nTB-body {{x.txt}}\n",
          # files whose names have no extension, with a relative transclude base (top level and in a sub-folder)
          "tbx": b"transclude base: base\n\nTBX-body {{x.txt}}\n", "sub/tbn": b"transclude base: base\n\nSTB-body {{y.txt}}\n", "sub/base/y.txt": b"Y-in-sub-base\n", "NOEXT": b"N-plain {{t.txt}}\n"}
+# include targets that are symbolic links to regular files (the reference sees the target's content)
+LINKS = {"lnk.txt": "t.txt", "sub/slink.txt": "../x.txt"}
+FIXED["lnk.txt"] = FIXED["t.txt"]; FIXED["sub/slink.txt"] = FIXED["x.txt"]
+def make_links(d):
+    for name, target in LINKS.items():
+        p = os.path.join(d, name)
+        try: os.unlink(p)
+        except OSError: pass
+        os.symlink(target, p)
 FORMATS = [("html", 0), ("latex", 2), ("fodt", 5), ("mmd", 11)]
 WILD = {0: ".html", 12: ".html", 1: ".html", 2: ".tex", 3: ".tex", 4: ".tex", 5: ".fodt", 6: ".fodt"}
 
 def targets(n):
-    return NAMES[:n] + ["missing.txt", "TOC", "w.*", "sub/s.txt", "m.txt", "tb.txt", "ABS:t.txt", "empty.txt", "tbx", "sub/tbn", "NOEXT"]
+    return NAMES[:n] + ["missing.txt", "TOC", "w.*", "sub/s.txt", "m.txt", "tb.txt", "ABS:t.txt", "empty.txt", "tbx", "sub/tbn", "NOEXT", "lnk.txt", "sub/slink.txt"]
 
 def file_body(i, marks, root):
     s = b"F%d-start\n\n" % i
@@ -77,6 +86,7 @@ def worker_init():
     _dir = tempfile.mkdtemp(prefix="vp-c13-%d-" % os.getpid(), dir=base)
     for k, v in FIXED.items():
         p = os.path.join(_dir, k); os.makedirs(os.path.dirname(p), exist_ok=True); open(p, "wb").write(v)
+    make_links(_dir)
     import atexit; atexit.register(lambda: shutil.rmtree(_dir, ignore_errors=True))
 
 def make_case(graphs):
@@ -179,6 +189,7 @@ def cli_leg(rep, tier):
         g = graphs[gi]; d = os.path.join(base, "g%d" % gi); os.makedirs(os.path.join(d, "sub")); os.makedirs(os.path.join(d, "base"))
         files = {}
         for k, v in FIXED.items(): os.makedirs(os.path.dirname(os.path.join(d, k)), exist_ok=True); open(os.path.join(d, k), "wb").write(v); files[os.path.join(d, k)] = v
+        make_links(d)
         for i, marks in enumerate(g):
             body = file_body(i, marks, d); open(os.path.join(d, NAMES[i]), "wb").write(body); files[os.path.join(d, NAMES[i])] = body
         top = os.path.join(d, "a.txt"); out = []
